@@ -320,7 +320,8 @@ PROPS = {
             'everything the interpreter does with these operations (which scope a built-in, function or assignment uses).'
             ' Unit unsetbi (Verus, yash-builtin/src/unset/semantics.rs unset_variables, unset_functions): the unset built-in asks the variable store to unset EVERY operand, each exactly once, in order, in the GLOBAL scope (every definition of the name goes away; what VariableSet::unset does with that request, including its refusal for read-only variables, is under contract in unit varset), never touches the functions in variable mode and vice versa, and hands back exactly one error per refused name.'
             " Unit builtincall (Verus, yash-semantics/src/command/simple_command/builtin.rs execute_builtin): the redirections of the command are performed first, once, under a RedirGuard; a failed one is reported once and nothing else happens - it interrupts the shell iff the built-in is a SPECIAL one, any other lets the shell go on; the assignments are then made once, with the redirections in effect: for a SPECIAL built-in in the caller's own contexts and not exported (they stay), for any other exported in a VOLATILE context pushed on top, which is gone afterwards; the built-in runs at most once, only after both succeeded and it turned out usable, in a Builtin frame saying whether it is special, with the redirections in effect, the contexts of the assignments and the fields after the command name; `$?` is the exit status of its result, the divert of its result is handed on, and the redirections stay in effect afterwards exactly when the result asks for that (exec); an unusable built-in is reported once, nothing runs, and the contexts, frames and redirections are the caller's again."
-            " Unit absenttarget (Verus, yash-semantics/src/command/simple_command/absent.rs execute_absent_target - a simple command without a command name): its redirections are never performed in this shell - without redirections no child is started, otherwise exactly one child is started for exactly these redirections and awaited, and its result is interpreted once; in the child (the closure, checked as a nested function with the same body) they are performed once, all, under a guard, a failed one is reported once and the handler's outcome applied, otherwise the child's status is that of the last command substitution in them or the status the command started with; a child that cannot be started interrupts with status 2 and no assignment is made; otherwise the assignments are made in THIS shell, once, all of them, NOT exported, in the caller's own contexts (they stay), a failed one hands its divert on, and `$?` is the status of the last command substitution in the assignments, else what the child reported, else (no redirections) the status handed in."),
+            " Unit absenttarget (Verus, yash-semantics/src/command/simple_command/absent.rs execute_absent_target - a simple command without a command name): its redirections are never performed in this shell - without redirections no child is started, otherwise exactly one child is started for exactly these redirections and awaited, and its result is interpreted once; in the child (the closure, checked as a nested function with the same body) they are performed once, all, under a guard, a failed one is reported once and the handler's outcome applied, otherwise the child's status is that of the last command substitution in them or the status the command started with; a child that cannot be started interrupts with status 2 and no assignment is made; otherwise the assignments are made in THIS shell, once, all of them, NOT exported, in the caller's own contexts (they stay), a failed one hands its divert on, and `$?` is the status of the last command substitution in the assignments, else what the child reported, else (no redirections) the status handed in."
+            " The context guard of the store (variable/guard.rs VariableSet::push_context, Drop for ContextGuard) has its constructor and destructor bodies verified in unit varset: while the guard lives the context is on top, dropping it pops exactly that context; that the destructor runs when the guard goes away is Rust's semantics and stays the assumption of the units that use guards."),
         'trusted_base': ['Verus 0.2026.09.13 + Z3', '/verif/tools/vextract.py'],
         'assumptions': [
             'source::Location is an opaque placeholder type',
